@@ -216,6 +216,33 @@ func (sn *simNet) tamper(i int, class string) (int, error) {
 	return len(sn.wire), nil
 }
 
+// forge: a third party (its own key) reads WHOAREYOU packet i and answers it in the name of the challenged
+// node: a codec with that node's public identity (id, record) but the forger's private key.
+func (sn *simNet) forge(i int, kind string) (int, error) {
+	p := sn.wire[i-1]
+	if p.kind != "way" {
+		return 0, fmt.Errorf("driver: packet %d is not a WHOAREYOU", i)
+	}
+	victim, challenger := sn.nodes[p.dst], sn.nodes[p.src]
+	forger := v5wire.NewCodec(victim.ln, detKey(sn.r), new(mclock.Simulated), nil)
+	_, _, pkt, err := forger.Decode(p.data, challenger.addr)
+	if err != nil {
+		return 0, fmt.Errorf("driver: forger cannot read WHOAREYOU %d: %v", i, err)
+	}
+	ch, ok := pkt.(*v5wire.Whoareyou)
+	if !ok {
+		return 0, fmt.Errorf("driver: packet %d does not decode as WHOAREYOU", i)
+	}
+	ch.Node = challenger.ln.Node()
+	m := sn.makeMsg(kind)
+	enc, _, err := forger.Encode(challenger.ln.ID(), challenger.addr, m, ch)
+	if err != nil {
+		return 0, err
+	}
+	sn.wire = append(sn.wire, wirePkt{data: append([]byte{}, enc...), src: p.dst, dst: p.src, msg: m, kind: "hs", tampered: true})
+	return len(sn.wire), nil
+}
+
 // deliver hands packet i to node `to` as coming from the address of its original sender and
 // classifies what Decode reports.
 func (sn *simNet) deliver(i int, to, from string) (string, string) {
@@ -334,6 +361,10 @@ func runSessions(path string, sum *tl.Summary) {
 				}
 			case "tamper":
 				if _, err := sn.tamper(a.I, a.T); err != nil {
+					tl.Fatal("%v", err)
+				}
+			case "forge":
+				if _, err := sn.forge(a.I, a.M); err != nil {
 					tl.Fatal("%v", err)
 				}
 			case "deliver":
@@ -462,7 +493,21 @@ func runSessRecord(path string, seed int64, ntraces, steps int, sum *tl.Summary)
 				emit("way", a, b, "", i, "", map[bool]string{true: "known", false: "unknownnode"}[kn])
 				undelivered = append(undelivered, i)
 				shape += "w"
-				inflight(i)
+				if r.Intn(5) == 0 {
+					// a third party answers the challenge before (or after) the challenged node sees it
+					k := kinds[r.Intn(len(kinds))]
+					if j, err := sn.forge(i, k); err == nil {
+						emit("forge", b, a, k, i, "forged", "")
+						shape += "F"
+						if r.Intn(2) == 0 {
+							undelivered = append([]int{j}, undelivered...)
+						} else {
+							undelivered = append(undelivered, j)
+						}
+					}
+				} else {
+					inflight(i)
+				}
 			case c < 14 && na.known[b] != nil:
 				k := kinds[r.Intn(len(kinds))]
 				i, err := sn.sendMsg(a, b, k)
